@@ -3,6 +3,7 @@ package gen
 import (
 	"archive/zip"
 	"bufio"
+	_ "embed"
 	"encoding/json"
 	"io"
 	"os"
@@ -137,4 +138,14 @@ func PadToStraddle(rng interface{ Intn(int) int }, lines []string, times int) []
 	}
 
 	return out
+}
+
+//go:embed psl_rules.txt
+var pslRulesText string
+
+// PSLRules returns every rule of the Public Suffix List as compiled into
+// golang.org/x/net/publicsuffix (the list its table test checks the table
+// against): plain, wildcard ("*.ck") and exception ("!www.ck") rules.
+func PSLRules() []string {
+	return strings.Split(strings.TrimSpace(pslRulesText), "\n")
 }
